@@ -148,11 +148,15 @@ fn render_callback_module(idx: usize, sd: &SubjectDef) -> String {
     let slice_variant = |leaf: usize, p: &crate::spec::PatSpec| sd.has_value.get(leaf).copied().unwrap_or(false) && p.callback.is_none();
     let lt = leaves.iter().enumerate().any(|(leaf, (p, v))| v.is_some() && slice_variant(leaf, p));
     let slice_ty = if def.utf8 { "&'s str" } else { "&'s [u8]" };
+    // one label-form callback of T is a user function that happens to be called `skip` (nothing else in the module has
+    // that name; it is not `logos::skip`)
+    let named_skip: Option<usize> = leaves.iter().enumerate().find(|(_, (p, _))| p.callback.as_ref().map(|c| c.form == 0 || c.form == 2).unwrap_or(false)).map(|(leaf, _)| leaf);
+    let fn_name = |name: &str, leaf: usize| if name == "T" && named_skip == Some(leaf) { "skip".to_string() } else { format!("{}cb{leaf}", name.to_lowercase()) };
     for name in ["T", "T1"] {
         let ty = if lt { format!("{name}<'s>") } else { name.to_string() };
         for (leaf, (p, variant)) in leaves.iter().enumerate() {
             if let Some(cb) = &p.callback {
-                s.push_str(&render_callback(leaf, name, &ty, cb.ret, cb.salt, cb.bump, first_unit, *variant).replace(&format!("fn cb{leaf}<"), &format!("fn {}cb{leaf}<", name.to_lowercase())));
+                s.push_str(&render_callback(leaf, name, &ty, cb.ret, cb.salt, cb.bump, first_unit, *variant).replace(&format!("fn cb{leaf}<"), &format!("fn {}<", fn_name(name, leaf))));
             }
         }
     }
@@ -163,7 +167,7 @@ fn render_callback_module(idx: usize, sd: &SubjectDef) -> String {
     };
     // main enum T and T1
     for name in ["T", "T1"] {
-        let lower = name.to_lowercase();
+        let _lower = name.to_lowercase();
         let mut body = String::new();
         body.push_str("#[derive(Logos, Debug, Clone, Copy, PartialEq)]\n");
         if !def.utf8 {
@@ -172,7 +176,7 @@ fn render_callback_module(idx: usize, sd: &SubjectDef) -> String {
         body.push_str(&format!("#[logos(extras = Log)]\n#[logos({err_attr})]\n"));
         let cbexpr = |leaf: usize, p: &crate::spec::PatSpec| -> Option<(String, u8)> {
             p.callback.as_ref().map(|cb| {
-                let f = format!("{lower}cb{leaf}");
+                let f = fn_name(name, leaf);
                 // forms 4/5: inline closure whose body is an expression starting with a group (or is a block)
                 let grouped = match cb.ret {
                     1 => format!("|lex| (lex.span().start <= lex.span().end) && {f}(lex)"),
@@ -394,7 +398,9 @@ pub fn table_defs() -> Vec<SubjectDef> {
         let mut has_value = vec![false; variants.len()];
         let mut sk = PatSpec::regex(LitSpec::str(" "));
         sk.callback = None;
-        out.push(SubjectDef { family: "callbacks".into(), def: DefSpec { utf8: true, subpatterns: vec![], skips: vec![sk], variants: variants.clone() }, skip_log: false, has_value: std::iter::once(false).chain(has_value.iter().copied()).collect(), error_cb, twin: false });
+        // the pair with an error callback lexes [u8]
+        let utf8 = !error_cb;
+        out.push(SubjectDef { family: "callbacks".into(), def: DefSpec { utf8, subpatterns: vec![], skips: vec![sk], variants: variants.clone() }, skip_log: false, has_value: std::iter::once(false).chain(has_value.iter().copied()).collect(), error_cb, twin: false });
         // value variants (11..=15) and skips with callbacks (16..=19)
         let mut variants = Vec::new();
         let mut skips = Vec::new();
@@ -414,7 +420,7 @@ pub fn table_defs() -> Vec<SubjectDef> {
         has_value = vec![false; skips.len()];
         has_value.extend(std::iter::repeat(true).take(5));
         has_value.push(false);
-        out.push(SubjectDef { family: "callbacks".into(), def: DefSpec { utf8: true, subpatterns: vec![], skips, variants }, skip_log: false, has_value, error_cb, twin: false });
+        out.push(SubjectDef { family: "callbacks".into(), def: DefSpec { utf8, subpatterns: vec![], skips, variants }, skip_log: false, has_value, error_cb, twin: false });
     }
     out
 }
